@@ -62,8 +62,10 @@ META = {
         'instrumentation: mobj.callPollFunc / every mobj.read_<p> and mobj.write_<p> / triggerPoll.wait / triggerPoll.clear are wrapped on the '
         'instances (the originals run inside); a read_<p> / write_<p> entered by the poll thread while none of the generated bodies '
         '(doPoll, initialReads, read and write functions = the module\'s own code) is active counts as called by the poller; code of the '
-        'poll thread that reached a read function by another route than the instance attribute (e.g. through the class) would not be seen',
-        'the start values to write (model: pending) are read off the real writeDict when the thread starts',
+        'poll thread that reached a read function by another route than the instance attribute (e.g. through the class) is seen only when the '
+        'parameter has a generated read function body (recorded there); a write function reached that way is not recorded as a call',
+        'the recipe of the generated configuration (given_of: which parameters are given a value); what module initialisation enters into '
+        'writeDict is computed by the model (givenIdx) from it and compared with the real writeDict in every scenario',
         'the recipe of the generated classes (decls_of: how each read function is declared; enablePoll) as reported to the judge',
         'BaseException (SystemExit, KeyboardInterrupt) is deliberately not contained by callPollFunc and is outside the statement',
     ],
@@ -257,6 +259,11 @@ def build_classes(rec, spec_mods, T):
             top = rec.depth == 0
             if not top:
                 rec.nested.append((rec.now(), self.name, fname))
+            # the body of a read function runs in the poll thread although neither a module's own code nor a recorded call
+            # of the poll thread is active: the thread's code reached it by a route the instance wrappers do not see
+            # (through the class, say) — still a read by the poller: an event for the judge, no slot in the model
+            stray = top and rec.poller is not None and rec.is_poller() and rec.cur is None
+            t0 = rec.now()
             rec.depth += 1
             try:
                 rec.handoff()
@@ -270,6 +277,8 @@ def build_classes(rec, spec_mods, T):
                 raise
             finally:
                 rec.depth -= 1
+                if stray and fname[5:] in self.parameters and self.name in rec.index:
+                    rec.inner.append([t0, rec.index[self.name], list(self.parameters).index(fname[5:]), rec.now() - t0])
 
         groups = {}
         for p in spec['params']:
@@ -516,6 +525,20 @@ def _wrap_write(rec, orig, i, pid, mobj, names):
     return ww
 
 
+def given_of(spec, mobj):
+    """which parameters (in `mobj.parameters` order) the GENERATED configuration / class gives a value: the recipe, not the
+    `writeDict` the framework filled (that one is compared with what the model makes of this, see `flags`)"""
+    res = []
+    for n in mobj.parameters:
+        if n == 'pollinterval':
+            res.append(spec['base'] in ('io', 'readable'))       # cfg: {'value': …} (for a plain Module it is a property)
+        elif n == 'w':
+            res.append(bool(spec.get('written')))
+        else:
+            res.append(any(p['name'] == n and p.get('w') for p in spec['params']))
+    return res
+
+
 WINDOW = ('c13.window',)
 
 
@@ -612,7 +635,7 @@ def impl_run(case):
         rec.index = index
         spec_of = {('m%d' % mi): spec for mi, spec in enumerate(spec_mods)}
 
-        model_mods, judge_mods, impl_flags = [], [], []
+        model_mods, judge_mods, impl_flags, impl_pending = [], [], [], []
         for i, mobj in enumerate(thread_mods):
             spec = spec_of[mobj.name]
             decls = decls_of(spec, mobj)
@@ -631,10 +654,11 @@ def impl_run(case):
                     rec.track.append((i, pid, pobj))
                     rec.stamps[(i, pid)] = pobj.timestamp or 0
             iv = _tick(mobj.pollinterval)
-            # what module initialisation has put into `writeDict`: the start values the thread has to write
-            pending = [names.index(n) for n in mobj.writeDict]
+            # what module initialisation has put into `writeDict` (the start values the thread has to write): the model
+            # computes it from which parameters are given a value; compared in the `flags` stream
+            impl_pending.append([names.index(n) if n in names else -1 for n in mobj.writeDict])
             model_mods.append({'enabled': enabled, 'slow': _tick(mobj.slowinterval), 'decls': decls,
-                               'pollinterval': iv, 'interval': iv, 'stamps': stamps, 'pending': pending})
+                               'pollinterval': iv, 'interval': iv, 'stamps': stamps, 'given': given_of(spec, mobj)})
             judge_mods.append({'enabled': enabled, 'slow': _tick(mobj.slowinterval), 'decls': decls,
                                'pollinterval': iv, 'cmds': [], 'names': names})
             rec.cmds[i] = judge_mods[-1]['cmds']
@@ -869,6 +893,7 @@ def impl_run(case):
         'names': [m['names'] for m in judge_mods],
         'order': [m.name for m in thread_mods],
         'impl_flags': impl_flags,
+        'impl_pending': impl_pending,
         'calls': rec.calls,
         'incomplete': rec.incomplete,
         'advs': rec.advs,
@@ -897,7 +922,7 @@ def fn_json(f):
 
 
 def flags_requests(obs):
-    return [{'p': 'C13', 'k': 'flags', 'decls': m['decls']} for m in obs['model_mods']]
+    return [{'p': 'C13', 'k': 'flags', 'decls': m['decls'], 'given': m['given']} for m in obs['model_mods']]
 
 
 def model_request(obs):
@@ -1323,6 +1348,7 @@ def ask(ctx, obs):
         if 'driver_error' in f:
             raise RuntimeError(f'driver error: {f}')
     obs['model_flags'] = [f['flags'] for f in a[2:]]
+    obs['model_pending'] = [f['pending'] for f in a[2:]]
     return a[0], a[1]
 
 
@@ -1466,6 +1492,9 @@ def run(ctx):
             if obs['model_flags'] != obs['impl_flags']:
                 res.disagreements.append({'case': case, 'model': {'poll_flags': obs['model_flags']},
                                           'impl': {'poll_flags': obs['impl_flags'], 'decls': [m['decls'] for m in obs['model_mods']]}})
+            elif obs['model_pending'] != obs['impl_pending']:
+                res.disagreements.append({'case': case, 'model': {'writeDict': obs['model_pending']},
+                                          'impl': {'writeDict': obs['impl_pending'], 'given': [m['given'] for m in obs['model_mods']]}})
             elif obs.get('drift') or obs.get('inner'):
                 res.disagreements.append({'case': case, 'model': 'no slot for what the implementation did',
                                           'impl': obs['drift'] or f'read functions called by the poll thread inside another of its calls: {obs["inner"][:3]}'})
